@@ -267,6 +267,22 @@ theorem integral_table_history_transparent {V SA : Type} (t : String → Rat × 
   show t s g.2.1 = t s' g'.2.1
   rw [h1, h2]
 
+/-! ### known finding: a potential without a grid of its own -/
+
+/-- `potential.grid.match(waves)` at the start of a simulation (`validate_potential`): an undefined grid is taken from the waves — and
+then belongs to the potential for good; a defined grid wins over the waves' grid (the waves are regridded). -/
+def matchGrid {G : Type} (own : Option G) (waves : G) : G := own.getD waves
+
+/-- KNOWN FINDING (findings/C11.json, key `gridless-potential-keeps-grid-of-first-waves`): a potential constructed without gpts/sampling
+and used with waves of grid `g1` keeps `g1`; a second simulation with waves of grid `g2 ≠ g1` runs on `g1` (and overwrites the waves'
+grid), whereas a fresh potential would run on `g2` — a result that depends on the grid the object was used with before.  The caches of
+the model are not involved; the state that leaks is the grid itself.  (Full statement that fails: "the grid of the second simulation is
+the second waves' grid".) -/
+theorem gridless_potential_keeps_first_grid_counterexample :
+    ¬ (∀ (g1 g2 : Nat × Nat), matchGrid (some (matchGrid none g1)) g2 = g2) := by
+  intro h
+  exact absurd (h (8, 8) (12, 12)) (by decide)
+
 /-! ### non-vacuity -/
 example : (run (fun s (g : Nat) => (s, g)) (fun (s : Nat) g => 10 * s + g) (fun _ => ()) [1, 2, 1] (fresh 3) [.build, .setGrid 4, .build]).map
     (fun o => (o.grid, o.vals)) = [(3, [(13, true), (23, true), (13, false)]), (4, [(14, true), (24, true), (14, false)])] := by decide
